@@ -77,6 +77,14 @@ func ToCatalog(rows []any, ident string, identRight string, joinExpr sqlparser.E
 			if err != nil {
 				return nil, err
 			}
+			// a column that names a common table expression stands for its rows: they
+			// are evaluated here, once, and not by the goroutines of a parallel join
+			if cte, ok := reader.(CteEvaluation); ok {
+				reader, err = cte()
+				if err != nil {
+					return nil, err
+				}
+			}
 			// every component is written with its length in front: the key columns
 			// ("a-", "") and ("a", "-") must not produce the same bytes
 			// the decimal text of the value, as the comparison operators use it for a
